@@ -55,4 +55,10 @@ var propMeta = map[string]*PropMeta{
 		Real:  realS, Stub: stubS, Assumptions: commonAssumptions,
 		Probes: []string{"probe.pause", "probe.pause-before-first-row", "probe.flush-during-scan"},
 	},
+	"C17": {
+		Level: "exploration", QuickSecs: 40, ThoroughSecs: 600, Recycle: 200,
+		Rule: "one case = one seeded plan: generated dataset and storage split, then K=2..8 generated queries (mostly on one table; different field subsets, windows, grouping, limits, memstore options, consumers that stop after n rows). Every query is planned twice at the same simulated instant; one copy runs alone (spaced by more than IterationCoalesceInterval), the other copies run as concurrent goroutines whose arrival offsets relative to the coalesce interval (1 ms - 3 s, IterationConcurrency 1/2/4) are drawn from {0, inside, exactly at the edge, outside}. Oracle: metamorphic, each query's concurrent rows and error equal its solo rows and error. The hook scan.coalesced reports how many queries each shared scan served (coalescing_degrees). Non-trivial = at least one compared query returned rows.",
+		Real:  realS, Stub: stubS, Assumptions: commonAssumptions,
+		Probes: []string{"probe.coalesced>1"},
+	},
 }
